@@ -76,7 +76,7 @@ class ScriptedServer:
                 sc = self.scripts.get(rid)
                 if sc is None:
                     raise tlc.MachineryError("request for unknown script %r" % rid)
-                att = {"seen": seen, "last": None, "closed": None}
+                att = {"seen": seen, "hdr": None, "last": None, "closed": None}
                 self.log.setdefault(rid, []).append(att)
                 fault = sc.get("fault")
                 if fault == "stall":
@@ -92,7 +92,15 @@ class ScriptedServer:
                 writer.write(
                     b"HTTP/1.1 200 OK\r\nContent-Type: application/json\r\nX-Elastic-Product: Elasticsearch\r\nContent-Length: %d\r\n\r\n" % len(body)
                 )
+                # taken before this coroutine yields: the client (same thread) cannot have seen the headers yet
+                att["hdr"] = time.perf_counter()
                 gaps = sc.get("gaps") or []
+                if fault == "close_after_headers":
+                    # the headers (and nothing else) arrive, then the socket is closed: the request fails while the client reads the
+                    # body.  No client-side timer is involved, so the order headers written < failure observed holds under any load.
+                    await writer.drain()
+                    await asyncio.sleep(0.15)
+                    return
                 if not gaps:
                     writer.write(body)
                     att["last"] = time.perf_counter()
@@ -205,6 +213,7 @@ class Scenario:
             for w in rec["wires"]:
                 atts = self.server.log.get(w["rid"], [])
                 seen = min((a["seen"] for a in atts), default=None)
+                hdr = max((a["hdr"] for a in atts if a["hdr"] is not None), default=None)
                 last = max((a["last"] for a in atts if a["last"] is not None), default=None)
                 fail = None
                 sc = self.server.scripts[w["rid"]]
@@ -212,7 +221,7 @@ class Scenario:
                     fail = w["issue"] + w["timeout"]
                 elif sc.get("fault") in ("close", "close_mid"):
                     fail = max((a["closed"] for a in atts if a["closed"] is not None), default=None)
-                wires.append({"seen": us(seen) if seen is not None else NEVER, "last": us(last) if last is not None else NEVER, "fail": us(fail) if fail is not None else NEVER})
+                wires.append({"seen": us(seen) if seen is not None else NEVER, "hdr": us(hdr) if hdr is not None else NEVER, "last": us(last) if last is not None else NEVER, "fail": us(fail) if fail is not None else NEVER})  # fmt: skip
             m = rec["mgr"]
             res.append(
                 {
@@ -270,6 +279,20 @@ async def c18_pages_last_closed(s, d):
         await s.request(c, s.script(hdr=0.15, fault="close"))
 
 
+async def c04_stalls_after_headers(s, d):
+    # the response headers arrive, the body never does: the request fails while the body is read.  aiohttp signals no exception
+    # event for that (elastic/rally#1860); the end must still be recorded (not before the headers were sent).  When the failure
+    # itself became observable is NOT judged here (see c18_pages_last_truncated).
+    with s.context("req") as c:
+        await s.request(c, s.script(hdr=d(), fault="close_after_headers"))
+
+
+async def c18_pages_last_stalls_after_headers(s, d):
+    with s.context("req") as c:
+        await s.request(c, s.script(gaps=[d()], size=3000))
+        await s.request(c, s.script(hdr=d(), fault="close_after_headers"))
+
+
 async def c18_pages_last_truncated(s, d):
     # NOT in the default set: the response is cut off in the middle of the body.  aiohttp signals no trace event for a failure while
     # the body is read, so the code as it is leaves request_end at the last chunk received (EndNotBeforeFailure fails by the time
@@ -320,8 +343,8 @@ async def c18_shared_pointer(s, d):
 
 
 SCENARIOS = {
-    "C04": [c04_headers_late, c04_body_late, c04_body_streamed, c04_timeout, c04_closed],
-    "C18": [c18_pages_last_times_out, c18_pages_last_closed, c18_nested_sequential, c18_nested_concurrent, c18_shared_pointer, c04_body_streamed],
+    "C04": [c04_headers_late, c04_body_late, c04_body_streamed, c04_timeout, c04_closed, c04_stalls_after_headers],
+    "C18": [c18_pages_last_times_out, c18_pages_last_closed, c18_pages_last_stalls_after_headers, c04_stalls_after_headers, c18_nested_sequential, c18_nested_concurrent, c18_shared_pointer, c04_body_streamed],  # fmt: skip
 }
 BY_NAME = {f.__name__: f for fs in SCENARIOS.values() for f in fs}
 BY_NAME[c18_pages_last_truncated.__name__] = c18_pages_last_truncated
